@@ -2,10 +2,13 @@
 (deap/tools/support.py: Statistics, MultiStatistics, Logbook)."""
 import collections
 import copy
+import numbers
 import itertools
 import pickle
 import re
 from operator import itemgetter
+
+import numpy
 
 from lib import Case
 from deap import tools
@@ -17,7 +20,7 @@ RULE = ("fixed witnesses of the repaired defects (F3, F4, F5, F12); enumeration 
         "pop(), pop(-1), del[0], del[-1], del[0:2], del[::-2], select, pickle} (plus `chapters[..].stream` when there is a chapter) "
         "followed by a final stream, in three configurations: no chapter, one chapter, one chapter holding a sub-chapter (one op "
         "shorter) - quick: all sequences of length <= 3 and a RANDOM HALF of those of length 4; thorough: all of length <= 5; "
-        "statistics: 1..3 statistics objects x key functions (identity default, len, item0, last, sum, tuple-valued fit1/fit2) x "
+        "statistics: 1..3 statistics objects x key functions (identity default, len, item0, last, sum, tuple-valued fit1/fit2) x data given as list / tuple of live objects, as a sequence or generator of short-lived objects, as a 2-D numpy array x "
         "14 functions with 0..2 frozen positional and keyword arguments, re-registration, objects sharing one key function object "
         "and the same field names, compile -> record pipelines; random histories of length <= 12 over records with 0..3 chapters: "
         "sub-chapters, optional fields, None / float / str valued fields, colliding keys, records WITHOUT scalar fields, the same "
@@ -71,8 +74,8 @@ VALCODES = [(None, 900001), (2.5, 900002), (-0.5, 900003), ("ab", 900004), ("x",
 
 
 def enc_val(v):
-    if isinstance(v, int) and not isinstance(v, bool):
-        return v
+    if isinstance(v, numbers.Integral) and not isinstance(v, (bool, numpy.bool_)):
+        return int(v)
     for val, code in VALCODES:
         if type(val) is type(v) and val == v:
             return code
@@ -624,7 +627,8 @@ def build_stats(keycode, data_is_plain, calls, label, shared=None):
             return shared[keycode]
 
         def key(elem):
-            calls.append(("key", label, elem))
+            # (a copy is logged: the harness must not keep the data elements alive)
+            calls.append(("key", label, list(elem) if hasattr(elem, "__iter__") else elem))
             return f(elem)
         if shared is not None:
             shared[keycode] = key
@@ -670,6 +674,38 @@ def args_tok(args):
     return "_".join(str(a) for a in args) or "-"
 
 
+class Fresh(object):
+    """a re-iterable data sequence whose items are manufactured on iteration (like the rows of a 2-D numpy array):
+    nothing keeps an item alive once the consumer drops it"""
+
+    def __init__(self, rows):
+        self.rows = [list(r) for r in rows]
+
+    def __len__(self):
+        return len(self.rows)
+
+    def __iter__(self):
+        for r in self.rows:
+            yield list(r)
+
+
+def make_data(rows, container, plain=False):
+    """the data sequence handed to compile: a list / tuple of live objects, a sequence or a generator of short-lived
+    objects, or a 2-D numpy array (rows of equal length only)"""
+    if plain:
+        vals = [r[0] for r in rows]
+        return tuple(vals) if container == "tuple" else (v for v in vals) if container == "gen" else vals
+    if container == "tuple":
+        return tuple(list(r) for r in rows)
+    if container == "fresh":
+        return Fresh(rows)
+    if container == "gen":
+        return (list(r) for r in rows)
+    if container == "ndarray" and rows and len(set(len(r) for r in rows)) == 1:
+        return numpy.array(rows)
+    return [list(r) for r in rows]
+
+
 def eval_stats(d):
     data = [list(ind) for ind in d["data"]]
     keycode = d["key"]
@@ -685,7 +721,7 @@ def eval_stats(d):
     toks.append(data_tok(data))
     pydata = [ind[0] for ind in data] if plain else [list(ind) for ind in data]
     del calls[:]
-    res = st.compile(pydata)
+    res = st.compile(make_data(data, d.get("container", "list"), plain))
     orc = None
     want = spec_compile(keycode, regs, data)
     values = tuple(key_value(keycode, ind) for ind in data)
@@ -750,7 +786,7 @@ def eval_multi(d):
     calls = []
     ms, toks, regs = build_multi(d, calls)
     toks.append(data_tok(data))
-    res = ms.compile([list(ind) for ind in data])
+    res = ms.compile(make_data(data, d.get("container", "list") if d.get("container") != "gen" else "fresh"))
     keyof = dict(d["stats"])
     want = dict((s, spec_compile(keyof[s], regs[s], data)) for s in keyof)
     orc = None
@@ -769,7 +805,7 @@ def eval_multi(d):
     if d.get("gens"):
         ops = []
         for g, gdata in enumerate(d["gens"]):
-            rec = ms.compile([list(ind) for ind in gdata])
+            rec = ms.compile(make_data(gdata, d.get("container", "list") if d.get("container") != "gen" else "fresh"))
             e = {"rid": 100001 + g, "gen": g}
             e.update(rec)
             ops.append(["rec", e])
@@ -1025,9 +1061,16 @@ def exh_history(seq, chapter):
     return {"k": "hist", "ops": ops}
 
 
+CONTAINERS = ["list", "tuple", "fresh", "gen", "ndarray"]
+_container = ["list"]          # the container family of the case being generated (set by `generate`, never by the seed)
+
+
 def rand_data(rng, nonempty):
-    n = rng.randint(1 if nonempty else 0, 6)
-    return [[rng.randint(-9, 30) for _ in range(rng.randint(1, 4))] for _ in range(n)]
+    c = _container[0]
+    short_lived = c in ("fresh", "gen", "ndarray")
+    n = rng.randint(3, 12) if short_lived else rng.randint(1 if nonempty else 0, 6)
+    width = rng.randint(1, 4)
+    return [[rng.randint(-9, 30) for _ in range(width if c == "ndarray" else rng.randint(1, 4))] for _ in range(n)]
 
 
 def rand_reg(rng, names, tuples=False):
@@ -1136,12 +1179,16 @@ def generate(tier, rng, mult):
     nstat = (8000 if thorough else 1200) * mult
     for i in range(nstat):
         r = i % 4
+        _container[0] = CONTAINERS[(i // 4) % len(CONTAINERS)]
         if r == 0:
-            yield rand_stats(rng)
+            dd = rand_stats(rng)
         elif r == 1:
-            yield rand_multi(rng, False)
+            dd = rand_multi(rng, False)
         else:
-            yield rand_multi(rng, True)
+            dd = rand_multi(rng, True)
+        dd["container"] = _container[0]
+        _container[0] = "list"
+        yield dd
     # random histories
     nrand = (80000 if thorough else 9000) * mult
     for i in range(nrand):
